@@ -208,11 +208,15 @@ def run_bind(ctx):
     for c in cases:
         if c["kind"] == "mismatch":
             # one finding per (expected, observed) class and call/signature shape; at most 12 per run
-            key = "bind:%s->%s:%s" % (c["gospec"].get("err", "ok"), c["obs"].get("err", "ok").split(":")[0], call_class(c))
+            mode = {"late-module": "bind-late", "roundtrip": "bind-roundtrip"}.get(c.get("mode") or "", "bind")
+            key = "%s:%s->%s:%s" % (mode, c["gospec"].get("err", "ok"), c["obs"].get("err", "ok").split(":")[0], call_class(c))
             if nfind < 12 and key not in [f.key for f in ctx.findings]:
                 nfind += 1
-                ctx.finding(key, "%s ; %s binds %s, the specification says %s (%d cases disagree in this run)" % (
-                    c["def"], c["src"], what(c["obs"]), what(c["gospec"]), summary["mismatches"]), c)
+                how = {"late-module": " [module-level call whose result is kept in a global list and read after the module finished]",
+                       "roundtrip": " [after Program.Write -> CompiledProgram -> Init]"}.get(c.get("mode") or "",
+                       " [result read after the calling function evaluated further calls and displays]")
+                ctx.finding(key, "%s ; %s binds %s, the specification says %s%s (%d cases disagree in this run)" % (
+                    c["def"], c["src"], what(c["obs"]), what(c["gospec"]), how, summary["mismatches"]), c)
     # (2) Coq model and Spec.v on the sample
     sample = [c for c in cases if c["coq"]]
     terms, refs = [], []
@@ -266,8 +270,8 @@ def bind_finish(ctx, summary, cases, sample, terms, refs, bad_model, bad_spec):
     return {
         "evaluations": summary["cases"],
         "distinct_nontrivial": summary["cases"] - summary["dist"].get("star", 0) - summary["dist"].get("dstar", 0) - summary["dist"].get("key", 0),
-        "signatures": summary["signatures"],
-        "rule": "all 280 signatures with <=3 positional (required/optional), optional * or *args, <=2 keyword-only (required/optional), optional **kwargs; call sites = 0..4 positional x every subset of the declared ordinary names plus one undeclared name as named arguments (both orders) x with/without *S x with/without **D; S = sequences of length 0-3 or a non-iterable; D = every subset of declared names, two undeclared names and the names of *args/**kwargs, a non-string key, a non-mapping. quick: a seeded 0.4% sample of the call sites (all S x D for a chosen site); thorough: the full product. Every case executed on the real interpreter and compared with the Go binder; a sample (success cases weighted up) is evaluated against C08.Model and C08.Spec in Coq and executed by CPython 3. distinct_nontrivial = cases that reach setArgs (operand errors excluded).",
+        "signatures": summary["signatures"], "roundtrip_cases": summary.get("roundtrip_cases"), "late_module_calls": summary.get("late_module_calls"),
+        "rule": "all 280 signatures with <=3 positional (required/optional), optional * or *args, <=2 keyword-only (required/optional), optional **kwargs; call sites = 0..4 positional x every subset of the declared ordinary names plus one undeclared name as named arguments (both orders) x with/without *S x with/without **D; S = sequences of length 0-3 or a non-iterable; D = every subset of declared names, two undeclared names and the names of *args/**kwargs, a non-string key, a non-mapping. quick: a seeded 0.4% sample of the call sites (all S x D for a chosen site); thorough: the full product. Every case is executed on the real interpreter inside a call-site function that keeps evaluating multi-operand calls and displays after the call and only then returns the result (late observation), and compared with the Go binder; every case (thorough: one in eight) is executed again on the module after Program.Write -> CompiledProgram -> Init; per signature a module-level block keeps the results of 10 calls in a global list, interleaved with other evaluation, and compares them after the module finished; a sample (success cases weighted up) is evaluated against C08.Model and C08.Spec in Coq and executed by CPython 3. distinct_nontrivial = cases that reach setArgs (operand errors excluded).",
         "distribution": summary["dist"], "fraction": summary["frac"],
         "coq_cases": len(terms), "cpython_cases": len(pyc), "cpython_class_compared": py_class_cmp,
         "model_mismatches": len(bad_model), "spec_mismatches": len(bad_spec), "go_binder_mismatches": summary["mismatches"],
